@@ -52,6 +52,9 @@ def _has_courses(t):
 
 # ---- fret arithmetic -----------------------------------------------------------------------------------
 
+SPELLINGS = {pc_: [nm for nm in T.unmixed_names(2) if T.pc(nm) == pc_] for pc_ in range(12)}
+
+
 def check_frets(ctx, case):
     ti, maxfret = case
     t = _tunings()[ti]
@@ -68,6 +71,22 @@ def check_frets(ctx, case):
             break
         if list(r) != exp or list(r2) != exp:
             bad = (n, "%r, expected %r" % (r, exp))
+            break
+        # the same pitch under its other spellings, those written across the octave line included (Cb-5 = B-4, B#-3 = C-4)
+        for nm in SPELLINGS[n % 12]:
+            o_, rem = divmod(n - T.NAT[nm[0]] - T.acc(nm), 12)
+            if rem or not 0 <= o_ <= 10:
+                continue
+            try:
+                r3 = t.find_frets(Note(nm, o_), maxfret)
+                r4 = t.find_frets("%s-%d" % (nm, o_), maxfret)
+            except Exception as e:  # noqa
+                bad = (n, "spelled %s-%d: %r" % (nm, o_, e))
+                break
+            if list(r3) != exp or list(r4) != exp:
+                bad = (n, "spelled %s-%d: %r / %r, expected %r" % (nm, o_, r3, r4, exp))
+                break
+        if bad:
             break
         if sum(1 for x in exp if x is not None) >= 2:
             multi += 1
